@@ -274,3 +274,28 @@ let fam_vsem () =
     (vrun copy_fixed (store0 (nat_of_int 4)) ops)
 
 let () = families := !families @ [ ("vsem", fam_vsem) ]
+
+(* err kind L fault pos : what the documented-error table predicts for the injected call *)
+let ocaml_string (s : Model.string) : String.t =
+  let b = Buffer.create 16 in
+  let rec go = function
+    | EmptyString -> ()
+    | String (Ascii (b0, b1, b2, b3, b4, b5, b6, b7), t) ->
+      let bit x k = if x then 1 lsl k else 0 in
+      Buffer.add_char b (Char.chr (bit b0 0 + bit b1 1 + bit b2 2 + bit b3 3 + bit b4 4 + bit b5 5 + bit b6 6 + bit b7 7));
+      go t in
+  go s; Buffer.contents b
+
+let fam_err () =
+  let _kind = int () in let _l = int () in let f = int () in let _pos = int () in
+  (match fault_of_id (nat_of_int f) with
+   | None -> out "F:UNKNOWN_FAULT"
+   | Some ft ->
+     (match expected ft with
+      | None -> out "F:NOERROR"
+      | Some (cat, code) ->
+        let c = String.map (fun ch -> if ch = ' ' then '_' else ch) (ocaml_string cat) in
+        out (Printf.sprintf "F:ERR:%s:%d" c (int_of_nat code))));
+  out "H:SS"
+
+let () = families := !families @ [ ("err", fam_err) ]
